@@ -43,10 +43,15 @@ class LowerRescale(RewritePattern):
         with_zp_out = AddiOp(trunced, zp_out)
         clamped_max = MinSIOp(with_zp_out, max)
         clamped_min = MaxSIOp(clamped_max, min)
-        trunced_final = TruncIOp(clamped_min, builtin.i8)
-        rewriter.replace_op(
-            op, [with_zp_in, extended, multed, shifted, trunced, with_zp_out, clamped_max, clamped_min, trunced_final]
-        )
+        body_ops = [with_zp_in, extended, multed, shifted, trunced, with_zp_out, clamped_max, clamped_min]
+        # the clamped i32 value is converted to the result type of the rescale op
+        result_type = op.result.type
+        assert isinstance(result_type, builtin.IntegerType)
+        if result_type.width.data < 32:
+            body_ops.append(TruncIOp(clamped_min, result_type))
+        elif result_type.width.data > 32:
+            body_ops.append(ExtSIOp(clamped_min, result_type))
+        rewriter.replace_op(op, body_ops)
 
 
 class LowerLinalgBody(RewritePattern):
